@@ -51,18 +51,22 @@ type p2pRig struct {
 	ckpts   []chaincfg.Checkpoint
 	capAll  int
 	// bookkeeping for oracles
-	banUntil  map[string]time.Time // model of bans (host -> expiry on the simulated clock)
-	forbidden map[Hash32]bool
-	offered   map[Hash32]bool // every header some node put on the wire
-	lastGH    map[int]int     // per conn: number of getheaders already checked
-	healing   bool
-	fresh     bool
-	disableCk bool
-	nGetHdrs  int
-	nReplies  int
-	nFaults   int
-	instSeq   int64
-	inCoStep  bool
+	banUntil    map[string]time.Time // model of bans (host -> expiry on the simulated clock)
+	forbidden   map[Hash32]bool
+	offered     map[Hash32]bool // every header some node put on the wire
+	lastGH      map[int]int     // per conn: number of getheaders already checked
+	healing     bool
+	fresh       bool
+	disableCk   bool
+	nGetHdrs    int
+	nReplies    int
+	nFaults     int
+	instSeq     int64
+	inCoStep    bool
+	viaSQL      bool // the world sits on the wrapper SQL driver
+	parkMu      sync.Mutex
+	parkArmed   bool          // the next read statement parks
+	parkedQuery chan struct{} // the parked read (nil: none)
 	// outbound class: the service dials scripted nodes it learnt from the (simulated) DNS seed and from addr messages;
 	// every Dial of the connection manager parks here until the scheduler answers it
 	outbound          bool
@@ -274,7 +278,28 @@ func p2psimRun(r *Run) {
 		ch := chainhash.Hash(fh)
 		chaincfg.MainNetParams.HeadersToIgnore = append(chaincfg.MainNetParams.HeadersToIgnore, &ch)
 	}
-	w.Open()
+	// a quarter of the runs (not in the race class) sit on the wrapper SQL driver: storage can then be SLOW while the
+	// network goes on (a read of the sync manager parks until the scheduler lets it through)
+	g.viaSQL = r.Opt["race"] != "1" && t.Chance(1, 4, "p2p-sql-wrapper")
+	r.Cfg["sql_wrapper"] = g.viaSQL
+	if g.viaSQL {
+		sqlQueryHook = func(string) {
+			g.parkMu.Lock()
+			if !g.parkArmed {
+				g.parkMu.Unlock()
+				return
+			}
+			g.parkArmed = false
+			ch := make(chan struct{})
+			g.parkedQuery = ch
+			g.parkMu.Unlock()
+			<-ch // durably blocked: the goroutine that asked (the sync manager) is stuck in its storage call
+		}
+		defer func() { sqlQueryHook = nil; g.releaseQuery() }()
+		w.OpenSim()
+	} else {
+		w.Open()
+	}
 	// initial store
 	switch initial {
 	case "prefix":
@@ -512,6 +537,9 @@ func (g *p2pRig) answerDial(tk *dialTask, connect bool) {
 			node = n
 		}
 	}
+	if node != nil && node.gone {
+		node = nil // the node has left the network
+	}
 	if !connect || node == nil {
 		g.r.Logf("dial %s -> refused", tk.addr)
 		g.r.Fault("dial-refused")
@@ -541,6 +569,23 @@ func (g *p2pRig) closeDials() {
 	for _, tk := range ds {
 		tk.ch <- dialAnswer{nil, errors.New("simnet: network is down")}
 	}
+}
+
+// releaseQuery lets a parked storage read go on.
+func (g *p2pRig) releaseQuery() {
+	g.parkMu.Lock()
+	ch := g.parkedQuery
+	g.parkedQuery, g.parkArmed = nil, false
+	g.parkMu.Unlock()
+	if ch != nil {
+		close(ch)
+	}
+}
+
+func (g *p2pRig) queryParked() bool {
+	g.parkMu.Lock()
+	defer g.parkMu.Unlock()
+	return g.parkedQuery != nil
 }
 
 // deliver hands k (<=0: all) pending bytes of the node's end to the service, at an instant of its own.
@@ -855,6 +900,15 @@ func (g *p2pRig) step() {
 		for _, c := range fc {
 			evs = append(evs, ev{"offend", c, nil, 5})
 		}
+		// directed: the offence arrives while the sync manager is stuck in a storage read on behalf of another peer,
+		// and the offender is gone before the manager gets to its message
+		if g.viaSQL && len(fc) > 0 && fc[0].nodeEnd.PendingOut() == 0 {
+			if hs := g.liveConns(func(c *nodeConn) bool {
+				return c.node == g.honest && c.handshaken() && !c.partitioned && c.nodeEnd.PendingOut() == 0
+			}); len(hs) > 0 {
+				evs = append(evs, ev{"offend-while-busy", fc[0], nil, 8})
+			}
+		}
 		// directed sequence (faults placed where they create in-flight state): two offences of one host from two of
 		// its connections with time passing in between, then a new connection of that host
 		var sameNode []*nodeConn // two connections of ONE offending node
@@ -945,6 +999,54 @@ func (g *p2pRig) step() {
 				g.afterDeliver(c2)
 			}
 		}
+	case "offend-while-busy":
+		hs := g.liveConns(func(c *nodeConn) bool {
+			return c.node == g.honest && c.handshaken() && !c.partitioned && c.nodeEnd.PendingOut() == 0
+		})
+		hc, oc := hs[0], e.c
+		// (1) the next storage read parks; an inv of the honest node makes the sync manager read
+		g.parkMu.Lock()
+		g.parkArmed = true
+		g.parkMu.Unlock()
+		inv := wire.NewMsgInv()
+		bh := chainhash.Hash(g.honest.best.Hash)
+		_ = inv.AddInvVect(wire.NewInvVect(wire.InvTypeBlock, &bh))
+		hc.send(inv)
+		g.uniqueInstant()
+		hc.nodeEnd.DeliverThrough()
+		synctest.Wait()
+		if !g.queryParked() {
+			g.releaseQuery() // nobody read anything: an ordinary step
+			r.Logf("%s announces its tip again (no storage read followed)", hc)
+			break
+		}
+		r.Fault("storage-read-stalls")
+		r.Logf("%s announces its tip again; the sync manager is stuck in a storage read", hc)
+		// (2) the offence and the end of the stream
+		hm := wire.NewMsgHeaders()
+		_ = hm.AddBlockHeader(toWireHeader(oc.node.forbidden))
+		g.offered[oc.node.forbidden.Hash] = true
+		if oc.misbehaved == "" || oc.misDelivered {
+			oc.misbehaved, oc.misDelivered, oc.misEnd = "forbidden", false, 0
+		}
+		oc.send(hm)
+		oc.nodeEnd.DeliverThrough()
+		g.afterDeliver(oc)
+		_ = oc.nodeEnd.Close()
+		oc.closed = true
+		synctest.Wait()
+		r.Logf("%s pushes its forbidden header and hangs up while the manager is busy", oc)
+		r.Probe("offence-queued-behind-a-stalled-read")
+		// (3) storage answers; the manager gets to the message of a peer that is gone
+		g.releaseQuery()
+		g.settle()
+		// (4) the offender returns: its host is banned
+		g.advance(3 * time.Second)
+		c2 := g.connect(oc.node)
+		c2.banProbe = true
+		r.Logf("connect %s from %s (the offender returns)", c2, oc.node.ip)
+		g.deliver(c2, 0)
+		g.afterDeliver(c2)
 	case "double-ban":
 		fc := g.liveConns(func(c *nodeConn) bool {
 			return c.node == e.c.node && c.handshaken() && !c.partitioned && c.admittedLive
@@ -1532,6 +1634,7 @@ func (g *p2pRig) heal() {
 		}
 		switch mode {
 		case "others-leave":
+			n.gone = true // (it does not answer the service's dials either)
 			for _, c := range n.conns {
 				if !c.closed && !c.dead {
 					_ = c.nodeEnd.Close()
@@ -1747,9 +1850,20 @@ func (g *p2pRig) outboundRestored() {
 		if est >= 8 {
 			return nil // the target is reached (several connections to one host may count towards it)
 		}
+		total := 0
+		for _, l := range g.admitted {
+			for _, x := range l {
+				if x.admittedLive {
+					total++
+				}
+			}
+		}
+		if total >= config.MaxPeers {
+			return nil // the service is full: whatever it dials it has to turn away again
+		}
 		for _, n := range g.nodes {
 			host := n.ip.String()
-			if !g.knownAddr[host] || g.refusals[host] >= 10 { // (many refusals: the address manager may have given up on it)
+			if n.gone || !g.knownAddr[host] || g.refusals[host] >= 10 { // (many refusals: the address manager may have given up on it)
 				continue
 			}
 			if until, banned := g.banUntil[host]; banned && g.now().Before(until) {
@@ -1862,7 +1976,7 @@ func (g *p2pRig) everyoneLeavesAndReturns() {
 	g.advance(20 * time.Second)
 	g.outboundRestored()
 	for _, n := range g.nodes {
-		if until, banned := g.banUntil[n.ip.String()]; banned && g.now().Before(until) {
+		if until, banned := g.banUntil[n.ip.String()]; (banned && g.now().Before(until)) || n.gone {
 			continue
 		}
 		for k := 0; k < 3; k++ {
